@@ -106,6 +106,15 @@ CHECKS = {
          "Well-formed = length consistent with DF; 28-hexdigit functions are not judged on 14-digit input; functions documented without a "
          "DF/TC domain are judged for totality only; TC29 reserved subtypes 2-3 may be refused or decoded.",
          "DESIGN.md section 5 C14"),
+ "C16": ("TLA+ spec of the Beast/raw/Skysense wire formats with frame positions and the two framing bounds; TLC model-checks a "
+         "reference incremental framer over EVERY segmentation of streams with special bytes at every position (state machine "
+         "StreamSM: invariant FramingHolds, Complete, action property AppendOnly); the same streams are cut every way into the real "
+         "TcpClient/NetSource and each run is validated step by step by TLC (Trace_Stream)",
+         "Spec level: all segmentations (every chunk size at every position) of 180 (quick) to 1300+ streams. Code level: every single "
+         "cut, pairs of cuts (quick: seeded subset), 1-byte pieces, seeded multi-cuts; seeded random streams with 12 % 0x1A density; "
+         "NetSource batches.",
+         "No sockets: chunks are appended to TcpClient.buffer and read_*_buffer() is called directly (as run() does); timestamps ignored.",
+         "DESIGN.md section 5 C16, Appendix B"),
 }
 
 PENDING = {}
